@@ -50,7 +50,7 @@ ORDERS = [('', None), ('+', 1), ('-', -1), ('++', 2), ('>', '>'), ('<<', '<<'), 
 
 
 def gen_link(rng, idx):
-    nk = rng.randint(2, 4)
+    nk = rng.choice([2, 3, 4, 4, 5, 5])
     keys = []
     seen = set()
     for _ in range(nk):
@@ -77,14 +77,17 @@ def gen_link(rng, idx):
     molmeta = [('scfix', 'true')] if rng.random() < 0.2 else []
     inters = []
     for _ in range(rng.randint(1, 3)):
-        typ = rng.choice(['bonds', 'angles', 'constraints', 'pairs_nb' if rng.random() < 0.3 else 'bonds'])
-        na = {'bonds': 2, 'constraints': 2, 'angles': 3, 'pairs_nb': 2}[typ]
+        typ = rng.choice(['bonds', 'angles', 'constraints', 'pairs_nb' if rng.random() < 0.3 else 'bonds', 'dihedrals', 'impropers'])
+        na = {'bonds': 2, 'constraints': 2, 'angles': 3, 'pairs_nb': 2, 'dihedrals': 4, 'impropers': 4}[typ]
         if len(keys) < na:
             continue
         refs = rng.sample(range(len(keys)), na)
-        inters.append({'type': typ, 'refs': refs, 'params': [rng.choice(['1', '0.3', '700', 'dist(BB,+BB)']) for _ in range(rng.randint(1, 3))],
+        params = [rng.choice(['1', '0.3', '700', 'dist(BB,+BB)']) for _ in range(rng.randint(1, 3))]
+        if typ == 'dihedrals' and rng.random() < 0.4:
+            params[0] = '2'                      # an improper written in the gromacs way: filed under impropers
+        inters.append({'type': typ, 'refs': refs, 'params': params,
                        'delim': rng.random() < 0.3, 'meta': {'version': 1} if rng.random() < 0.15 else None,
-                       'remove': rng.random() < 0.15})
+                       'remove': rng.random() < (0.4 if typ in ('dihedrals', 'impropers') else 0.15)})
     used = sorted({r for i in inters for r in i['refs']})
     edges = [rng.sample(used, 2)] if len(used) >= 2 and rng.random() < 0.3 else []
     non_edges = [rng.sample(used, 2)] if len(used) >= 2 and rng.random() < 0.3 else []
@@ -297,7 +300,10 @@ def check_ff(ff, loaded):
         want_i, want_r = {}, {}
         for x in l['inters']:
             tgt = want_r if x['remove'] else want_i
-            tgt.setdefault(x['type'], []).append(([l['keys'][r]['key'] for r in x['refs']],
+            typ = x['type']
+            if typ == 'dihedrals' and x['params'] and x['params'][0] == '2':
+                typ = 'impropers'
+            tgt.setdefault(typ, []).append(([l['keys'][r]['key'] for r in x['refs']],
                                                   [subst(p, macros) if '(' not in p else None for p in x['params']], x['meta'] or {}))
         for name, want, got in (('interactions', want_i, ll.interactions), ('removed', want_r, ll.removed_interactions)):
             g = {t: [(list(i.atoms), [p if isinstance(p, str) else None for p in i.parameters], dict(i.meta)) for i in lst]
@@ -337,7 +343,7 @@ def check_ff(ff, loaded):
 
 
 FAULTS = ['unknown_section', 'undefined_block_atom', 'duplicate_block_atom', 'unbalanced_brace', 'prefix_order_contradiction',
-          'wrong_atom_count', 'line_in_unknown_subsection', 'index_out_of_range']
+          'wrong_atom_count', 'line_in_unknown_subsection', 'index_out_of_range', 'index_zero']
 
 
 def inject_fault(rng, ff, fault):
@@ -354,7 +360,7 @@ def inject_fault(rng, ff, fault):
             return None
         i = rng.choice(idx)
         return lines[:i] + [lines[i].replace('}', '', 1) if rng.random() < 0.5 else lines[i].replace('{', '', 1)] + lines[i + 1:]
-    if fault in ('undefined_block_atom', 'duplicate_block_atom', 'wrong_atom_count', 'index_out_of_range') and blocks:
+    if fault in ('undefined_block_atom', 'duplicate_block_atom', 'wrong_atom_count', 'index_out_of_range', 'index_zero') and blocks:
         b = rng.choice(blocks)
         start = lines.index('%s %d' % (b['name'], b['nrexcl']))
         atoms_end = start + 2 + len(b['atoms'])
@@ -362,6 +368,9 @@ def inject_fault(rng, ff, fault):
             return lines[:atoms_end] + [lines[start + 2]] + lines[atoms_end:]
         if fault == 'undefined_block_atom':
             return lines[:atoms_end] + ['[ bonds ]', '%s NOPE 1 0.3 100' % b['atoms'][0]['name']] + lines[atoms_end:]
+        if fault == 'index_zero':
+            # atom indices are 1-based: 0 refers to no atom of the block
+            return lines[:atoms_end] + ['[ bonds ]', '0 1 1 0.3 100' if rng.random() < 0.5 else '1 0 1 0.3 100'] + lines[atoms_end:]
         if fault == 'index_out_of_range':
             return lines[:atoms_end] + ['[ bonds ]', '1 %d 1 0.3 100' % (len(b['atoms']) + 3)] + lines[atoms_end:]
         return lines[:atoms_end] + ['[ angles ]', '%s %s -- 1 0.3 100' % (b['atoms'][0]['name'], b['atoms'][0]['name'])] + lines[atoms_end:]
